@@ -66,11 +66,11 @@ def calls_for(rnd, utf8, size):
         r = rnd.random()
         if r < 0.5:
             out.append({"op": "read", "n": rnd.choice([0, 1, 2, 100, 4095, 4096, 4097, 8192, 8193, 10000, size, size + 1])})
-        elif r < 0.75 and utf8:
+        elif r < 0.75 and (utf8 or rnd.random() < 0.3):
             out.append({"op": "line", "n": 0})
         elif r < 0.87:
             out.append({"op": "readall", "n": 0})
-        elif utf8:
+        elif utf8 or rnd.random() < 0.5:
             out.append({"op": "tostring", "n": 0})
         else:
             out.append({"op": "read", "n": rnd.randint(0, 50)})
@@ -182,6 +182,20 @@ def run(rep, tier, seed):
                 sched.append((rnd.choice([1, 7, 100, 4095, 4096, 4097, 8192, 10000]), rnd.choice([0, 0, 0.001, 0.02])))
             pipes.append({"id": "p%d" % i, "src": script("stdin", base, calls), "calls": calls, "base": base, "content": data,
                           "how": "pipe", "sched": sched})
+
+        # text asked of input that is not text (a stray byte, a sequence cut short at the end, an overlong form, a surrogate)
+        odd = [b"abc\xff def\n", b"caf\xc3\xa9 \xe2\x82", b"x\xc0\x80y\n", b"ok\n\xed\xa0\x80\n", b"\xf5\x80\x80\x80", b"plain ascii\n"]
+        for k, data in enumerate(odd):
+            for calls in ([{"op": "tostring", "n": 0}], [{"op": "line", "n": 0}, {"op": "tostring", "n": 0}], [{"op": "read", "n": 2}, {"op": "tostring", "n": 0}]):
+                base = os.path.join(d, "podd%d_%d" % (k, len(pipes)))
+                pipes.append({"id": "p%d" % len(pipes), "src": script("stdin", base, calls), "calls": calls, "base": base, "content": data,
+                              "how": "pipe", "sched": [(rnd.choice([1, 3, 100]), 0)]})
+                # the same through a file handle
+                path = os.path.join(d, "oddfile%d_%d" % (k, len(pipes)))
+                open(path, "wb").write(data)
+                base2 = base + "f"
+                pipes.append({"id": "p%d" % len(pipes), "src": script('open("%s")' % path, base2, calls), "calls": calls, "base": base2,
+                              "content": data, "how": "file-through-binary", "sched": [(100, 0)]})
 
         def runpipe(it):
             rc, err = feed([core.P2SH, "-c", it["src"]], it["content"], it["sched"])
